@@ -135,6 +135,10 @@ def _tile(text, fullsheet, tokens, ctx, bomshift):
         kind, val = t[0], t[1]
         kinds.add(kind)
         last = i + 1 == len(body)
+        if kind == 'S' and any(c not in WS1 for c in val):
+            raise Violation('class:S-contains-non-css-whitespace', f'{t!r} in {text!r}')
+        if kind == 'S' and end < len(text) and text[end] in WS1:
+            raise Violation('class:S-not-maximal', f'{t!r} in {text!r}')
         if kind in LITERAL:
             ok = val == span
         elif kind in DECODED:
@@ -208,7 +212,8 @@ tiling_strategy = st.fixed_dictionaries({
 def firstchar_cases(tier):
     step = 97 if tier == 'quick' else 7
     tails = ['', 'a', '(', ' x', '1', '\\41 ']
-    for cp in list(range(0, 0x300)) + list(range(0x300, 0x110000, step)):
+    special = [0x1680, 0x180e, 0x2028, 0x2029, 0x202f, 0x205f, 0x3000, 0xfeff, 0xfffe, 0xffff, 0x10000, 0x10ffff] + list(range(0x2000, 0x2010))
+    for cp in list(range(0, 0x300)) + special + list(range(0x300, 0x110000, step)):
         if 0xD800 <= cp <= 0xDFFF:
             continue
         for i, tail in enumerate(tails):
@@ -216,6 +221,43 @@ def firstchar_cases(tier):
                 continue
             yield {'text': chr(cp) + tail, 'fullsheet': bool(cp & 1)}
             yield {'text': 'a ' + chr(cp) + tail, 'fullsheet': not (cp & 1)}
+
+
+def check_firstchar(case, ctx):
+    """every code point as first character of a token: tiling + classification by the grammar"""
+    check_tiling(case, ctx)
+    text = case['text']
+    tokens = toks(text, case['fullsheet'])
+    idx = 2 if text.startswith('a ') else 0
+    ch = text[idx:idx + 1] if not text.startswith('a ') else text[2]
+    if not ch or idx >= len(tokens) or (idx == 2 and ch in WS1):
+        return
+    kind, val = tokens[idx][0], tokens[idx][1]
+    cp = ord(ch)
+    if ch in WS1:
+        exp = 'S'
+    elif cp >= 0x80:
+        rest = text[(2 if text.startswith('a ') else 0) + 1:]
+        if idx == 0 and text[:2] == '\xfe\xff' or idx == 0 and text[:3] == '\xef\xbb\xbf':
+            return
+        exp = 'FUNCTION' if rest.startswith('(') else 'IDENT'
+    elif ch.isalpha() or ch == '_':
+        rest = text[(2 if text.startswith('a ') else 0) + 1:]
+        if ch in 'uU' and rest[:1] == '+':
+            return
+        exp = 'FUNCTION' if rest.startswith('(') else 'IDENT'
+    elif ch.isdigit():
+        exp = ('NUMBER', 'DIMENSION', 'PERCENTAGE')
+    elif ch in '{}[]();:,>~=!$%&^|<?' or cp < 0x20 or cp == 0x7f:
+        exp = ('CHAR', 'INCLUDES', 'DASHMATCH', 'PREFIXMATCH', 'SUFFIXMATCH', 'SUBSTRINGMATCH', 'CDO')
+    else:
+        return
+    if isinstance(exp, str):
+        exp = (exp,)
+    if kind not in exp:
+        raise Violation('class:first-character', f'U+{cp:04X} starts a {kind} token {val!r}, grammar says {exp} in {text!r}')
+    if kind in ('IDENT', 'FUNCTION') and not val.startswith(ch):
+        raise Violation('class:first-character', f'U+{cp:04X}: token {val!r} in {text!r}')
 
 
 # ---------------------------------------------------------------------------
@@ -545,7 +587,7 @@ def check_errpos(case, ctx):
 
 SUBS = [
     Sub('tiling', check_tiling, strategy=tiling_strategy, quick=40000, thorough=2400000, shards_quick=8),
-    Sub('firstchar', check_tiling, enumerate=firstchar_cases, shards_quick=4),
+    Sub('firstchar', check_firstchar, enumerate=firstchar_cases, shards_quick=4),
     Sub('seq', check_seq, strategy=token_seq(), quick=6000, thorough=400000, shards_quick=8),
     Sub('errpos', check_errpos, strategy=errpos_strategy, quick=1500, thorough=40000, shards_quick=4),
 ]
